@@ -61,7 +61,14 @@ theorem gen_skel_graph :
 
 /-! ## L1 — the dependency counter protocol -/
 
-/-- **dep_protocol_exhaustive.**  For every interleaving of the atomic sub-steps of `A` (activate),
+/-- **dep_protocol_exhaustive** — proved for every dependency whose condition and target are
+*different* data (`C` and `T` are two actors, each telling the dependency once); hence `_partial`.
+Full statement (all dependencies, including `to(A).on(A)`): FALSE for the code as it is — see
+`dep_same_data_counterexample` and the known finding `oracle:samedata:code`
+(patches/C05-same-data-condition.diff reduces that case to "C then T on one thread", which is
+covered below).
+
+For every interleaving of the atomic sub-steps of `A` (activate),
 `C b` (condition ready with value `b`) and `T` (target ready), every subset of these actors, with or
 without a condition, and any number of spurious weak-CAS failures:
 * the counter stays in `[-3, 2]` and the `default:` branch of the switch is never taken; the
@@ -77,7 +84,7 @@ without a condition, and any number of spurious weak-CAS failures:
 * nothing is lost: when every actor that started has finished and the dependency is resolvable
   (`A` done, `C` done or absent condition, `T` done or not established) the source has been told
   exactly once and has run; an unresolved activated dependency has demanded what it waits for. -/
-theorem dep_protocol_exhaustive (s : Dep.State) (h : Reachable (· ∈ Dep.inits) Dep.Step s) :
+theorem dep_protocol_exhaustive_partial (s : Dep.State) (h : Reachable (· ∈ Dep.inits) Dep.Step s) :
     (-3 ≤ s.cntI ∧ s.cntI ≤ 2) ∧ s.bad = false ∧ 0 ≤ s.vwnI ∧ s.vwnI = 1 - (s.notified + s.finA : Nat) ∧
     s.notified + s.finA ≤ 1 ∧
     (s.notified + s.finA = 1 → s.a ≠ .idle ∧ s.condOK = true ∧ (s.estTrue = false ∨ s.tgtSealed = true)) ∧
@@ -92,6 +99,16 @@ theorem dep_protocol_exhaustive (s : Dep.State) (h : Reachable (· ∈ Dep.inits
       ((s.cfg.hasCond = false ∨ s.c = .done) → (s.estTrue = false ∨ s.t = .done) →
          s.notified + s.finA = 1 ∧ s.invoked = 1)) :=
   Dep.good_spec s (Dep.reachable_good s h)
+
+/-- **Counterexample for condition = target** (finding `oracle:samedata:code`).  The data is ready
+before the activation and does not establish the condition: `ready()` runs twice through the
+condition branch, the counter walks 0 → -1 → -2 → -3 → -4 — outside `[-3, 2]` — the activation's
+`+2` yields -2, which is none of the `case` labels: the `default:` branch is taken, `activate`
+returns 0 (not finished) and no `ready()` call is left to tell the source.  The vertex never becomes
+runnable and `Graph::run` finishes with -1. -/
+theorem dep_same_data_counterexample :
+    Dep.sameDataBeforeActivate = -4 ∧ ¬ (-3 ≤ Dep.sameDataBeforeActivate) ∧
+    Dep.sameDataSwitchValue = -2 ∧ Dep.sameDataSwitchValue ∉ activateCases := by decide
 
 /-- not vacuous: the schedule "T, then C (condition false), then A" drives the counter to -3 and
 then to the terminal value -1 of the activation, which reports the dependency finished. -/
@@ -129,12 +146,18 @@ theorem data_publish_once (p : Params) (s : State) (h : Reachable (· = State.in
   Graph.data_publish_once p s h d
 
 open Babylon.Anyflow.Graph in
-/-- **closure_finish_flush.**  The closure is finished by the first successful `mark_finished` and its
+/-- **closure_finish_flush** — `_partial`: the flush part carries the hypothesis "no emitter unknown
+to the closure seals data after `run`" (`lateEnv = false`).  Full statement (flush at most once for
+every schedule, including data emitted by other threads while `Graph::run` activates): FALSE for the
+code as it is — see `closure_flush_twice_counterexample` and the known finding
+`oracle:inject:dup-flush`.
+
+The closure is finished by the first successful `mark_finished` and its
 code never changes; as long as no emitter unknown to the closure seals data after `run` (`lateEnv`),
 the vertex count is `1 (until fire) + open vertex closures`, the flush is signalled at most once and
 only when the count has returned to 0, i.e. after `fire` and after every started vertex closure is
 done — no processor is running then and none starts afterwards. -/
-theorem closure_finish_flush (p : Params) (s : State) (h : Reachable (· = State.init) (Step p) s) :
+theorem closure_finish_flush_partial (p : Params) (s : State) (h : Reachable (· = State.init) (Step p) s) :
     (∀ e s' c, stepEvent p s e = some s' → s.fin = some c → s' = State.init ∨ s'.fin = some c) ∧
     (s.lateEnv = false →
       s.wvn = (if s.firedV then 0 else 1) + s.opened ∧ s.procs ≤ s.opened ∧ s.flushed ≤ 1 ∧
@@ -143,24 +166,65 @@ theorem closure_finish_flush (p : Params) (s : State) (h : Reachable (· = State
   Graph.closure_finish_flush p s h
 
 open Babylon.Anyflow.Graph in
-/-- **graph_safety** (every well-formed DAG, every schedule).  While the closure is not finished, a
+/-- **Counterexample with a late emitter** (finding `oracle:inject:dup-flush`): on the graph
+`v0: d0 ↦ d1` with target `d1`, the schedule `cexSchedule` — the environment seals `d0` after
+`run`, between the activation of the dependency and the emitter's notification — is a path of the
+model that flushes the closure twice (and finishes it with -1 although every input was provided). -/
+theorem closure_flush_twice_counterexample :
+    wfB cexParams = true ∧
+    (runEvents cexParams State.init cexSchedule).map (fun s => (s.flushed, s.fin, s.lateEnv)) = some (2, some (-1), true) ∧
+    ∃ s, Reachable (· = State.init) (Step cexParams) s ∧ s.flushed = 2 := by
+  refine ⟨by decide, by decide, ?_⟩
+  cases h : runEvents cexParams State.init cexSchedule with
+  | none => exact absurd h (by decide)
+  | some s =>
+    refine ⟨s, runEvents_reachable (.base rfl) h, ?_⟩
+    have : (runEvents cexParams State.init cexSchedule).map (·.flushed) = some 2 := by decide
+    rw [h] at this; simpa using this
+
+open Babylon.Anyflow.Graph in
+/-- **graph_safety** — `_partial`: `WF` contains `cond ≠ target` for every dependency (the L2 model
+replaces dependencies by the specification that L1 proves only for such dependencies).
+(every well-formed DAG, every schedule).  While the closure is not finished, a
 vertex is activated — hence run — only if the targets need it: some emit of it that the environment
 does not provide is demanded by the targets through established dependencies, where "established"
 is judged by the *sequential* semantics `evalSeq`. -/
-theorem graph_safety (p : Params) (hwf : WF p) (s : State) (h : Reachable (· = State.init) (Step p) s)
+theorem graph_safety_partial (p : Params) (hwf : WF p) (s : State) (h : Reachable (· = State.init) (Step p) s)
     (hfin : s.fin = none) (v : Nat) :
     (s.vact v = true → VNeeded p v) ∧ (s.started v ≥ 1 → VNeeded p v) :=
   Graph.graph_safety p hwf s h hfin v
 
 open Babylon.Anyflow.Graph in
-/-- **graph_eq_sequential** (every well-formed DAG, every input, every target set, every schedule).
+/-- **graph_eq_sequential** — `_partial`: (1) `WF` contains `cond ≠ target`; (2) it is the "on
+success" half of the property.  Full statement: additionally every run terminates with the closure
+finished, and with code 0 whenever the sequential evaluation has everything it needs — FALSE for the
+code as it is when a dependency has `cond = target` (`dep_same_data_counterexample`: the run
+finishes with -1) or when an unknown emitter races with the run (`closure_flush_twice_counterexample`).
+What is proved about termination is `graph_terminates_partial`.
+(every well-formed DAG, every input, every target set, every schedule).
 If the run finishes successfully (code 0) every target is ready and holds the value the sequential
 evaluation `evalSeq` of the same graph gives; more generally, until the closure finishes every
 sealed data holds its `evalSeq` value. -/
-theorem graph_eq_sequential (p : Params) (hwf : WF p) (s : State) (h : Reachable (· = State.init) (Step p) s) :
+theorem graph_eq_sequential_partial (p : Params) (hwf : WF p) (s : State) (h : Reachable (· = State.init) (Step p) s) :
     (s.fin = none → ∀ d, s.sealed d = true → s.val d = evalSeq p d) ∧
     (s.fin = some 0 → ∀ t ∈ p.targets, s.sealed t = true ∧ s.val t = evalSeq p t) :=
   Graph.graph_eq_sequential p hwf s h
+
+open Babylon.Anyflow.Graph in
+/-- **graph_terminates** — `_partial`.  Full statement: no reachable non-final state without an
+enabled step and every maximal run ends flushed and finished.  Proved: the closure machinery never
+waits on itself — while the run is not flushed and no processor is inside `process` (processors
+and the environment are the only parties allowed to take time) one of `bind`, `fire`, vertex-closure
+completion is enabled, and once flushed the closure can always be marked finished; together with
+the L1 clause "nothing is lost" (a resolvable activated dependency has told its vertex once all its
+actors are done) and `vertex_invoke_once` this is the termination argument.  Missing: the global
+well-founded measure over the DAG (each vertex and data makes progress at most once) and fairness
+of the executor, which would turn "can progress" into "terminates". -/
+theorem graph_terminates_partial (p : Params) (hwf : WF p) (s : State) (h : Reachable (· = State.init) (Step p) s)
+    (hr : s.running = true) (hl : s.lateEnv = false) (hp : s.procs = 0) :
+    (s.flushed = 0 → ∃ e, (e = .bind ∨ e = .fireD ∨ e = .fireV ∨ e = .vsub) ∧ (stepEvent p s e).isSome = true) ∧
+    (s.flushed = 1 → s.fin = none → (stepEvent p s (.finish (-1))).isSome = true) :=
+  Graph.closure_progress p hwf s h hr hl hp
 
 open Babylon.Anyflow.Graph in
 /-- **reset_reinit.**  `reset` is accepted only when the run is completely over (fired, vertex count
